@@ -93,6 +93,8 @@ def gen_case(seed, tier):
         tf = []
         if dom != "comb":
             tf = [i for i, w in enumerate(wports) if w["domain"] == dom and cfg.random() < 0.6]
+            if tf and cfg.random() < 0.2:
+                tf = tf + [tf[0]]         # the transparency set given as an iterable that names a port twice
         rports.append({"domain": dom, "transparent_for": tf})
     wrap = []
     nctl = 0
